@@ -73,6 +73,14 @@ Definition mopB (o : @mop DF) : @mop DB :=
   | MUp => @MUp DB | MDown => @MDown DB | MRead => @MRead DB
   end.
 
+Definition xopB (o : @xop DF) : @xop DB :=
+  match o with
+  | XSet x => @XSet DB (toB x) | XReport x => @XReport DB (toB x)
+  | XUp => @XUp DB | XDown => @XDown DB | XRead => @XRead DB | XNoVol => @XNoVol DB
+  | XMissing => @XMissing DB | XPump => @XPump DB
+  | XStream i => @XStream DB (option_map toB i)
+  end.
+
 Fixpoint list_beq2 {A B} (f : A -> B -> bool) (a : list A) (b : list B) : bool :=
   match a, b with
   | [], [] => true
@@ -85,7 +93,8 @@ Inductive ccase :=
 | CMapQ (args : list Q) (r : res Q)                      (* real map_range on fractions.Fraction *)
 | CGuard (fv : fval) (x : float) (accepted : bool)       (* facade guard on a reported / requested value *)
 | CRaop (ops : list (@rop DF)) (obs : list (list (@event DF)))
-| CMrp (vabs vrel : bool) (v0 : float) (ops : list (@mop DF)) (obs : list (list (@event DF))).
+| CMrp (vabs vrel : bool) (v0 : float) (ops : list (@mop DF)) (obs : list (list (@event DF)))
+| CCross (ops : list (@xop DF)) (obs : list (list (@event DF))).   (* Companion + RAOP on one dispatcher *)
 
 Definition check_case (c : ccase) : bool :=
   match c with
@@ -103,6 +112,9 @@ Definition check_case (c : ccase) : bool :=
   | CMrp a r v0 ops obs =>
       list_beq (list_beq event_same) (mrun DF (Build_mstate DF v0 a r) ops) obs
       && list_beq2 (list_beq2 eventB_same) (mrun DB (Build_mstate DB (toB v0) a r) (map mopB ops)) obs
+  | CCross ops obs =>
+      list_beq (list_beq event_same) (xrun DF (xinit DF) ops) obs
+      && list_beq2 (list_beq2 eventB_same) (xrun DB (xinit DB) (map xopB ops)) obs
   end.
 
 (* monomorphic constructors for the generated case files *)
@@ -129,3 +141,12 @@ Definition mOther (x : float) : @mop DF := @MOther DF x.
 Definition mUp : @mop DF := @MUp DF.
 Definition mDown : @mop DF := @MDown DF.
 Definition mRead : @mop DF := @MRead DF.
+Definition xSet (x : float) : @xop DF := @XSet DF x.
+Definition xReport (x : float) : @xop DF := @XReport DF x.
+Definition xStream (i : option float) : @xop DF := @XStream DF i.
+Definition xUp : @xop DF := @XUp DF.
+Definition xDown : @xop DF := @XDown DF.
+Definition xRead : @xop DF := @XRead DF.
+Definition xNoVol : @xop DF := @XNoVol DF.
+Definition xMissing : @xop DF := @XMissing DF.
+Definition xPump : @xop DF := @XPump DF.
